@@ -2911,6 +2911,13 @@ impl KnowledgeGraph {
     ///
     /// Overwrites any existing schema. Saves to disk on success.
     pub fn register_or_update_schema(&mut self, schema: RelationSchema) -> Result<(), String> {
+        // Data-first workflow: a schema can only be declared over data that already
+        // conforms to it - otherwise the relation would hold tuples its schema forbids.
+        if let Some(existing) = self.engine.input_tuples.get(&schema.name) {
+            ValidationEngine::new()
+                .validate_batch(&schema, existing)
+                .map_err(|e| format!("existing data does not conform to the schema: {e}"))?;
+        }
         self.schema_catalog
             .register_or_update(schema)
             .map_err(|e| format!("{e}"))?;
